@@ -221,3 +221,74 @@ func c18ViewBoxSize(c *core.Check) {
 	ok, _ := core.GuardedBy(fn, site, atoms, req)
 	r.Cond(ok, key, p.Pos(fn.Pos()), "both sizes are decided non-negative on every path that returns the rectangle without an error", "a path returns the parsed rectangle without an error and without having compared its Width and Height with zero: viewBox=\"0 0 -10 -10\" mirrors the image")
 }
+
+// c18MissingSizeIsAuto (R20): the width and the height of an svg element default to 100 % (auto), for the root
+// (DisplayedSize) and for a nested element (svg.draw) alike.  A missing attribute parses to the Value without unit
+// (U == 0); both functions read the width and the height of the element, and each of the two values is tested for
+// the missing unit before it is used.  (A nested <svg> without width/height had a 0x0 viewport and, overflow being
+// hidden by default, nothing of it was visible.)
+func c18MissingSizeIsAuto(c *core.Check) {
+	p := c.Prog
+	r := c.Rule("R20", "missing width/height of an svg element is auto: in (*SVGImage).DisplayedSize and in svg.draw each of the values read from the fields width and height has its unit U compared with 0 (the value of a missing attribute)", 4)
+	for _, fn := range []*ssa.Function{p.Method("svg", "SVGImage", "DisplayedSize"), p.Method("svg", "svg", "draw")} {
+		if fn == nil {
+			r.Anchor("svg.(*SVGImage).DisplayedSize / svg.svg.draw")
+			continue
+		}
+		// origin of an address: the field width/height it is, or the local a load of that field is stored into
+		origin := func(addr ssa.Value) string {
+			switch a := addr.(type) {
+			case *ssa.FieldAddr:
+				if n := core.FieldName(a); n == "width" || n == "height" {
+					return n
+				}
+			case *ssa.Alloc:
+				for _, st := range core.StoresTo(a) {
+					if ld, ok := st.(*ssa.UnOp); ok && ld.Op == token.MUL {
+						if fa, ok := ld.X.(*ssa.FieldAddr); ok {
+							if n := core.FieldName(fa); n == "width" || n == "height" {
+								return n
+							}
+						}
+					}
+				}
+			}
+			return ""
+		}
+		tested := map[string]bool{}
+		read := map[string]bool{}
+		core.Instrs(fn, func(in ssa.Instruction) {
+			if fa, ok := in.(*ssa.FieldAddr); ok {
+				if n := core.FieldName(fa); n == "width" || n == "height" {
+					read[n] = true
+				}
+			}
+			b, ok := in.(*ssa.BinOp)
+			if !ok || (b.Op != token.EQL && b.Op != token.NEQ) {
+				return
+			}
+			if z, ok := core.ConstInt(b.Y); !ok || z != 0 {
+				return
+			}
+			ld, ok := b.X.(*ssa.UnOp)
+			if !ok || ld.Op != token.MUL {
+				return
+			}
+			fa, ok := ld.X.(*ssa.FieldAddr)
+			if !ok || core.FieldName(fa) != "U" {
+				return
+			}
+			if n := origin(fa.X); n != "" && len(*b.Referrers()) > 0 {
+				tested[n] = true
+			}
+		})
+		for _, f := range []string{"width", "height"} {
+			key := fmt.Sprintf("%s | unit of %s compared with 0", core.FuncName(fn), f)
+			if !read[f] {
+				r.Unknown(key, p.Pos(fn.Pos()), "the field is not read by this function")
+				continue
+			}
+			r.Cond(tested[f], key, p.Pos(fn.Pos()), "tested for the missing attribute", "the "+f+" of the element is used without a test of its unit: a missing attribute counts as 0 instead of 100%")
+		}
+	}
+}
